@@ -126,6 +126,10 @@ def _expr(x, e):
     raise ValueError(k)
 
 
+LEAF_EXT = {}      # op -> f(q, env): extra leaf operators registered by a driver (e.g. a parquet read)
+NODE_EXT = {}      # op -> f(q, x, env): extra unary operators
+
+
 def build(q, env, lib, knobs=None):
     """q: abstract tree (dict). env: table name -> frame (dask-expr or pandas). lib: 'dask' | 'pandas'."""
     import pandas as pd
@@ -133,8 +137,14 @@ def build(q, env, lib, knobs=None):
     op = q["op"]
     if op == "src":
         return env[q["t"]]
+    if op in LEAF_EXT:
+        return LEAF_EXT[op](q, env)
     x = build(q["c"][0], env, lib, knobs)
     dask = lib == "dask"
+    if "kw" in q:                       # knobs given at this node only (session catalogs)
+        knobs = dict(knobs, **q["kw"])
+    if op in NODE_EXT:
+        return NODE_EXT[op](q, x, env)
     if op == "proj":
         return x[list(q["cols"])]
     if op == "col":
